@@ -59,7 +59,9 @@ impl ToIdent for &'_ str {
 pub fn mask_bits(n: usize, suffix: &str) -> syn::LitInt {
     let suffix = if n > 31 { format!("_{suffix}") } else { String::new() };
     // Format the hex digits as 0x1111_2222_3333_usize.
-    let hex_digits = format!("{:x}", (1u64 << n) - 1)
+    // `1u64 << 64` overflows: a 64-bit mask has every bit set.
+    let mask = if n >= 64 { u64::MAX } else { (1u64 << n) - 1 };
+    let hex_digits = format!("{:x}", mask)
         .as_bytes()
         .rchunks(4)
         .rev()
